@@ -37,7 +37,7 @@ def bounds(tier):
         return dict(numbering="N<=3 skeletons (subset), <=3 sliced indices incl. projections, sizes symbolic 2..6, i symbolic",
                     reassembly="N<=3 rank<=2 skeletons, every subset of <=2 labels in every order, each sliced or projected (one rotating mode per pair), all trees")
     return dict(numbering="N<=3 skeletons, <=3 sliced indices incl. projections, sizes symbolic 2..6, i symbolic",
-                reassembly="N<=3 rank<=3 and N=4 rank<=2 skeletons, every subset of <=3 labels in every order, sliced or projected, all trees")
+                reassembly="N=2 rank<=3 (every 3rd), N=3 rank<=2 (all) + rank 3 (every 60th), N=4 rank<=2 (every 60th); every ordered subset of <=2 labels (<=3 for every 4th N<=3 skeleton), sliced or projected, all trees")
 
 
 def items(tier, seed):
@@ -46,8 +46,8 @@ def items(tier, seed):
         chunk = 10
         sk_a = sk[::6]
     else:
-        sk = skel.skeletons(2, 3, 4, 2) + skel.skeletons(3, 2, 4, 2) + skel.skeletons(3, 3, 4, 2, max_positions=7)[::4] + skel.skeletons(4, 2, 4, 2, max_positions=7)[::4]
-        chunk = 10
+        sk = skel.skeletons(2, 3, 4, 2)[::3] + skel.skeletons(3, 2, 4, 2) + skel.skeletons(3, 3, 4, 2, max_positions=7)[::60] + skel.skeletons(4, 2, 4, 2, max_positions=7)[::60]
+        chunk = 4
         sk_a = (skel.skeletons(2, 2, 4, 2) + skel.skeletons(3, 2, 4, 2))[::2]
     its = []
     for i in range(0, len(sk), chunk):
@@ -186,7 +186,7 @@ def run_reassembly(item, rec):
             s1 = dict(sizes[0])
             s1[labels[si % len(labels)]] = 1
             sizes.append(s1)
-        maxk = 2 if tier == "quick" or n >= 4 else 3
+        maxk = 2 if (tier == "quick" or n >= 4 or si % 4) else 3
         for size in sizes:
             arrays = symarr.sym_arrays(inputs, size)
             for ti, ssa in enumerate(trees):
